@@ -41,6 +41,7 @@ impl Ctx {
         }
     }
     pub fn op(&mut self, line: String) -> String {
+        crate::watch::touch(&line);
         let a = self.ex.step(&line).expect("generator emitted a comment");
         self.ops.push(line);
         self.ans.push(a.clone());
@@ -150,6 +151,19 @@ fn generate(prop: &str, ctx: &mut Ctx) {
 
 pub fn oracle(prop: &str, ops: &[String], ans: &[String]) -> Vec<Failure> {
     let mut fails = vec![];
+    // `X.clonefrom i j` (Clone::clone_from) means the same to every oracle as `X.clone j i`
+    let ops: Vec<String> = ops
+        .iter()
+        .map(|l| {
+            let t: Vec<&str> = l.split_whitespace().collect();
+            if t.len() == 3 && t[0].ends_with(".clonefrom") {
+                format!("{}.clone {} {}", t[0].trim_end_matches(".clonefrom"), t[2], t[1])
+            } else {
+                l.clone()
+            }
+        })
+        .collect();
+    let ops = &ops[..];
     for (case, start, o, a) in split_cases(ops, ans) {
         let r: Vec<(usize, String)> = match prop {
             "C17" => hll::oracle_c17(o, a),
@@ -192,6 +206,7 @@ pub fn run(prop: &str, tier: &str, seed: u64, outdir: &str) {
     let mut ctx = Ctx::new(seed ^ 0xC0FFEE, tier_scale(tier));
     generate(prop, &mut ctx);
     let mut fails = oracle(prop, &ctx.ops, &ctx.ans);
+    crate::watch::phase(&format!("the {} sampling experiment", prop), if tier == "thorough" { 7200 } else { 1200 });
     // sampling experiments / measurements on the real crate (no ops file: case 0)
     let mut exp = experiments::Exp { rng: SplitMix(seed ^ 0xE5E5), scale: ctx.tier_scale, stats: BTreeMap::new(), fails: vec![], evals: 0 };
     {
@@ -204,7 +219,10 @@ pub fn run(prop: &str, tier: &str, seed: u64, outdir: &str) {
                     experiments::exp_c05(&mut exp);
                     experiments::exp_c05_long(&mut exp);
                 }
-                "C07" => experiments::exp_c07(&mut exp),
+                "C07" => {
+                    experiments::exp_c07(&mut exp);
+                    experiments::exp_c07_floor(&mut exp);
+                }
                 "C08" => {
                     experiments::exp_c08(&mut exp);
                     experiments::exp_c08_floor(&mut exp);
@@ -218,6 +236,7 @@ pub fn run(prop: &str, tier: &str, seed: u64, outdir: &str) {
             exp.fails.push(format!("the real crate panicked inside the {} experiment (re-run with PDS_HARNESS_PANICS=1 for the location)", prop));
         }
     }
+    crate::watch::disarm();
     for (k, v) in &exp.stats {
         ctx.stats.insert(k.clone(), *v);
     }
@@ -260,6 +279,9 @@ pub fn oracle_file(prop: &str, path: &str) -> bool {
     let mut ops = vec![];
     let mut ans = vec![];
     for l in text.lines() {
+        if !l.trim().is_empty() && !l.trim().starts_with('#') {
+            crate::watch::touch(l.trim());
+        }
         if let Some(a) = ex.step(l) {
             ops.push(l.to_string());
             ans.push(a);
